@@ -34,6 +34,35 @@ impl ArOp {
     }
 }
 
+#[derive(Clone, Copy, Debug, PartialEq, Eq, Serialize, Deserialize, Hash)]
+pub enum FnKind {
+    Abs,
+    Round,
+    Floor,
+    Ceil,
+    Length,
+    Upper,
+    Lower,
+    Coalesce,
+    NullIf,
+}
+
+impl FnKind {
+    fn name(&self) -> &'static str {
+        match self {
+            FnKind::Abs => "ABS",
+            FnKind::Round => "ROUND",
+            FnKind::Floor => "FLOOR",
+            FnKind::Ceil => "CEIL",
+            FnKind::Length => "LENGTH",
+            FnKind::Upper => "UPPER",
+            FnKind::Lower => "LOWER",
+            FnKind::Coalesce => "COALESCE",
+            FnKind::NullIf => "NULLIF",
+        }
+    }
+}
+
 /// Column reference: (index of the table in the FROM list, column index).
 #[derive(Clone, Debug, PartialEq, Serialize, Deserialize)]
 pub enum E {
@@ -50,6 +79,7 @@ pub enum E {
     Arith(ArOp, Box<E>, Box<E>),
     Neg(Box<E>),
     Concat(Box<E>, Box<E>),
+    Func(FnKind, Vec<E>),
 }
 
 #[derive(Clone, Debug, PartialEq)]
@@ -198,6 +228,23 @@ impl E {
                 Val::Dbl(d) => Val::Dbl(-d),
                 _ => return Err(EvalErr::Undefined("type".into())),
             },
+            E::Func(f, args) => {
+                let v: Vec<Val> = args.iter().map(|a| a.eval(rows)).collect::<Result<_, _>>()?;
+                match (f, v.as_slice()) {
+                    (FnKind::Coalesce, [a, b]) => if a.is_null() { b.clone() } else { a.clone() },
+                    (FnKind::NullIf, [a, b]) => if !a.is_null() && !b.is_null() && cmp_vals(a, b) == Some(Ordering::Equal) { Val::Null } else { a.clone() },
+                    (_, [Val::Null]) => Val::Null,
+                    (FnKind::Abs, [Val::Int(i)]) => Val::Dbl((*i as f64).abs()),
+                    (FnKind::Abs, [Val::Dbl(d)]) => Val::Dbl(d.abs()),
+                    (FnKind::Round, [x]) => Val::Dbl(x.as_f64().ok_or_else(|| EvalErr::Undefined("type".into()))?.round()),
+                    (FnKind::Floor, [x]) => Val::Dbl(x.as_f64().ok_or_else(|| EvalErr::Undefined("type".into()))?.floor()),
+                    (FnKind::Ceil, [x]) => Val::Dbl(x.as_f64().ok_or_else(|| EvalErr::Undefined("type".into()))?.ceil()),
+                    (FnKind::Length, [Val::Text(t)]) => Val::Int(t.chars().count() as i64),
+                    (FnKind::Upper, [Val::Text(t)]) => Val::Text(t.to_uppercase()),
+                    (FnKind::Lower, [Val::Text(t)]) => Val::Text(t.to_lowercase()),
+                    _ => return Err(EvalErr::Undefined("function arguments".into())),
+                }
+            }
             E::Concat(a, b) => match (a.eval(rows)?, b.eval(rows)?) {
                 (Val::Text(x), Val::Text(y)) => Val::Text(x + &y),
                 (Val::Null, _) | (_, Val::Null) => Val::Null,
@@ -215,7 +262,7 @@ impl E {
             E::Arith(op, ..) => op.prec(),
             E::Concat(..) => 7,
             E::Neg(..) => 9,
-            E::Col(..) => 11,
+            E::Col(..) | E::Func(..) => 11,
             E::Lit(Val::Int(i)) if *i < 0 => 11, // "-5" is lexed as one negative literal after a prefix minus
             E::Lit(Val::Dbl(d)) if *d < 0.0 => 11,
             E::Lit(..) => 11,
@@ -253,6 +300,21 @@ impl E {
             E::Arith(op, a, b) => format!("{} {} {}", child(a, op.prec()), op.sql(), child(b, op.prec() + 1)),
             E::Concat(a, b) => format!("{} || {}", child(a, 7), child(b, 8)),
             E::Neg(a) => format!("- {}", child(a, 10)),
+            E::Func(f, args) => format!("{}({})", f.name(), args.iter().map(|a| a.sql(names, full)).collect::<Vec<_>>().join(", ")),
+        }
+    }
+
+    /// Static numeric class of a numeric expression: true = DOUBLE, false = integer.
+    pub fn is_double(&self, ty_of: &dyn Fn(u8, u8) -> Ty) -> bool {
+        match self {
+            E::Col(t, c) => ty_of(*t, *c) == Ty::Double,
+            E::Lit(Val::Dbl(_)) => true,
+            E::Lit(_) => false,
+            E::Arith(_, a, b) => a.is_double(ty_of) || b.is_double(ty_of),
+            E::Neg(a) => a.is_double(ty_of),
+            E::Func(FnKind::Abs | FnKind::Round | FnKind::Floor | FnKind::Ceil, _) => true,
+            E::Func(FnKind::Coalesce | FnKind::NullIf, args) => args.first().map(|a| a.is_double(ty_of)).unwrap_or(false),
+            _ => false,
         }
     }
 
@@ -273,6 +335,7 @@ impl E {
             E::Arith(o, x, y) => E::Arith(*o, b(x), b(y)),
             E::Neg(x) => E::Neg(b(x)),
             E::Concat(x, y) => E::Concat(b(x), b(y)),
+            E::Func(k, args) => E::Func(*k, args.iter().map(|e| e.map_cols(f)).collect()),
         }
     }
 
@@ -293,6 +356,7 @@ impl E {
             E::Cmp(_, a, b) | E::And(a, b) | E::Or(a, b) | E::Arith(_, a, b) | E::Concat(a, b) => 1 + a.depth().max(b.depth()),
             E::Between(a, b, c, _) => 1 + a.depth().max(b.depth()).max(c.depth()),
             E::In(a, l, _) => 1 + a.depth().max(l.iter().map(|e| e.depth()).max().unwrap_or(0)),
+            E::Func(_, l) => 1 + l.iter().map(|e| e.depth()).max().unwrap_or(0),
         }
     }
 
@@ -358,6 +422,17 @@ impl E {
                 out.push("expr.concat");
                 a.features(out);
                 b.features(out);
+            }
+            E::Func(k, args) => {
+                out.push(match k {
+                    FnKind::Abs | FnKind::Round | FnKind::Floor | FnKind::Ceil => "expr.fn.numeric",
+                    FnKind::Length | FnKind::Upper | FnKind::Lower => "expr.fn.text",
+                    FnKind::Coalesce => "expr.fn.coalesce",
+                    FnKind::NullIf => "expr.fn.nullif",
+                });
+                for a in args {
+                    a.features(out);
+                }
             }
         }
     }
